@@ -1,6 +1,6 @@
 (* C10 — fields are linear in sources and initial state.  Model: model/Yee.v; lemmas: proofs/Yee_linear.v, proofs/Yee_linear_pml.v *)
 From Coq Require Import List Arith.
-From FV Require Import base.Scalar base.Cplx model.Yee proofs.Yee_steps proofs.Yee_pml_loop proofs.Yee_linear proofs.Yee_linear_pml model.YeeFull proofs.Yee_full_props.
+From FV Require Import base.Scalar base.Cplx model.Yee proofs.Yee_steps proofs.Yee_pml_loop proofs.Yee_linear proofs.Yee_linear_pml model.YeeFull proofs.Yee_full_props proofs.Yee_lossy_props.
 Import ListNotations.
 
 (* For every scene of the model — any grid, ghost factors (periodic / Bloch / zero halo), widths, wall masks, iso/diagonal lossy
@@ -40,3 +40,24 @@ Theorem C10_forward_full_tensor_linear : forall (K : Fld) (sc : scene K) (a b : 
   veqA K (fH (iterF K ie9 im9 sc3 n s3)) (lcV K a b (fH (iterF K ie9 im9 sc1 n s1)) (fH (iterF K ie9 im9 sc2 n s2))).
 Proof. intros K sc a b Hp ie9 im9. exact (forward_full_linear_n K sc a b Hp ie9 im9). Qed.
 Print Assumptions C10_forward_full_tensor_linear.
+
+(* The conductive fully anisotropic tiers (model/YeeFull.v forward_lossy: per-cell 3x3 update matrices A = M1^-1 M2, B = c M1^-1 T from the
+   inverse material tensor T and the conductivity tensor), PML-free scenes, any number of steps.  A tier given as None is the iso / diagonal tier. *)
+Theorem C10_forward_lossy_tensor_linear : forall (K : Fld) (sc : scene K) (a b : car K), pmls K sc = [] ->
+  forall (e m : option (T9 K * T9 K)) jE1 jH1 jE2 jH2 n s1 s2 s3,
+  tstep s2 = tstep s1 -> tstep s3 = tstep s1 ->
+  veqA K (fE s3) (lcV K a b (fE s1) (fE s2)) -> veqA K (fH s3) (lcV K a b (fH s1) (fH s2)) ->
+  let sc1 := with_inj K sc jE1 jH1 in let sc2 := with_inj K sc jE2 jH2 in
+  let sc3 := with_inj K sc (fun t => lcV K a b (jE1 t) (jE2 t)) (fun t => lcV K a b (jH1 t) (jH2 t)) in
+  veqA K (fE (iterL K e m sc3 n s3)) (lcV K a b (fE (iterL K e m sc1 n s1)) (fE (iterL K e m sc2 n s2))) /\
+  veqA K (fH (iterL K e m sc3 n s3)) (lcV K a b (fH (iterL K e m sc1 n s1)) (fH (iterL K e m sc2 n s2))).
+Proof. intros K sc a b Hp e m. exact (forward_lossy_linear_n K sc a b Hp e m). Qed.
+Print Assumptions C10_forward_lossy_tensor_linear.
+
+(* the matrices of that tier are the solutions of the source's linear systems: M1 A = M2 (and likewise M1 B = c T), wherever M1 is regular *)
+Theorem C10_lossy_matrices_solve : forall (K : Fld) (sc : scene K) etaf (T sg : T9 K) i j k,
+  det9 K (lossy_M1 K sc etaf T sg) i j k <> f0 K ->
+  forall r s, (r < 3)%nat -> (s < 3)%nat ->
+  m9mul K (lossy_M1 K sc etaf T sg) (lossy_A K sc etaf T sg) r s i j k = lossy_M2 K sc etaf T sg r s i j k.
+Proof. exact lossy_A_solves. Qed.
+Print Assumptions C10_lossy_matrices_solve.
